@@ -64,14 +64,14 @@ impl Cfg {
     fn generate(seed: u64, index: u64) -> Cfg {
         let mut st = seed ^ index.wrapping_mul(0xD6E8_FEB8_6659_FD93) ^ 0xC20;
         let threads = 2 + below(&mut st, 7) as usize;
-        const PARTS: [&str; 8] = ["", "_", "a", "tmp_0_0", "0", "1_2", "name-part", "x_1"];
+        const PARTS: [&str; 12] = ["", "_", "a", "tmp_0_0", "0", "1_2", "name-part", "x_1", "index.gbz", "v1.2", ".", "a.b.c"];
         let same = below(&mut st, 3) == 0;
-        let first = PARTS[below(&mut st, 8) as usize].to_string();
+        let first = PARTS[below(&mut st, 12) as usize].to_string();
         let mut calls = Vec::new();
         let mut parts = Vec::new();
         for _ in 0..threads {
             calls.push(1 + below(&mut st, 4) as usize);
-            parts.push(if same { first.clone() } else { PARTS[below(&mut st, 8) as usize].to_string() });
+            parts.push(if same { first.clone() } else { PARTS[below(&mut st, 12) as usize].to_string() });
         }
         Cfg { calls, parts, main_calls: below(&mut st, 3) as usize }
     }
